@@ -13,6 +13,7 @@ CONSTANTS
   WithErrors = FALSE
   WithIdle = FALSE
   WithSleep = TRUE
+  KeepLog = FALSE
 INVARIANT TypeOK
 INVARIANT LockOK
 INVARIANT NoUnexplainedWitness
